@@ -200,6 +200,16 @@ def both_miners_solve(ctx, res, rng, keys, tree, rn, w, si):
             return
         summary, height = w.sent[-1][1]
         cands.append((mid, summary, height, consensus.construct_summary_hash(summary, height)))
+    # two more greeted peers: the first one's socket has just been closed without the networking loop having noticed (it is still
+    # listed as connected, sending to it raises), the second is healthy and comes after it in the order the peers are visited
+    dead = rn.add_peer(active=True)
+    after_dead = rn.add_peer(active=True)
+    try:
+        rn.peers[dead].sock.close()
+    except Exception:
+        pass
+    healthy = [pi for pi, p in enumerate(rn.peers) if pi != dead and p.hello_sent and p.hello_received]
+    frames_before = {pi: list(rn.outbox_kinds(rn.peers[pi])) for pi in healthy}
     blocks = []
     info = {"scenario": si, "kind_of_run": "two miners hold candidates on one head; both answers are solutions"}
     for mid, summary, height, sh in (cands[1], cands[0]):
@@ -233,6 +243,18 @@ def both_miners_solve(ctx, res, rng, keys, tree, rn, w, si):
             and second is not None and served.current_chain_hash == second.hash():
         res.violations.append({**info, "kind": "a found block that does not extend the head (a competitor of the block found "
                                                "just before) became the head", "block": second.serialize().hex()})
+    for b in blocks:
+        if b is None:
+            continue
+        want = "B:%s:0" % b.hash()[:8].hex()
+        for pi in healthy:
+            newf = rn.outbox_kinds(rn.peers[pi])[len(frames_before[pi]):]
+            if want not in newf:
+                res.violations.append({**info, "kind": "a found block was not broadcast to greeted peer %d (another greeted peer's "
+                                                       "socket had just been closed; peer %d comes after it)" % (pi, after_dead),
+                                       "block": b.serialize().hex()})
+                break
+    res.count("both_miners:broadcast_with_a_dead_peer")
     for b in blocks:
         if b is not None and b.hash() in served.block_by_hash:
             tree.adopt(b)
